@@ -13,6 +13,71 @@ pub struct ScaleCase {
     pub lang: String,
     pub unit: String,
     pub max_chars: usize,
+    /// nesting family: `open^d unit close^d` for growing depth d (instead of `unit^n`)
+    #[serde(default)]
+    pub nest: Option<(String, String)>,
+}
+
+/// Nesting families: (language, open, body, close). Work that doubles with every level of nesting
+/// is invisible in the repetition families, whose documents are flat.
+pub const NESTS: &[(&str, &str, &str, &str)] = &[
+    ("typst", "#(", "1", ")"),
+    ("typst", "#[", "a", "]"),
+    ("typst", "#{", "1", "}"),
+    ("typst", "#f(", "\"a\"", ")"),
+    ("typst", "#let x = (", "\"a b\"", ")"),
+    ("typst", "*", "a", "*"),
+    ("typst", "$(", "x", ")$"),
+    ("markdown", "[", "a", "](x)"),
+    ("markdown", "*", "a", "*"),
+    ("markdown", "<b>", "a", "</b>"),
+    ("markdown", "> ", "a", ""),
+    ("html", "<div>", "a", "</div>"),
+    ("plaintext", "(", "a", ")"),
+    ("plaintext", "\"", "a", "\""),
+    ("rust", "/* ", "a", " */"),
+    ("scala", "/* ", "a", " */"),
+    ("javascript", "/** {@link ", "a", "} */"),
+    ("literate haskell", "> ", "x", ""),
+];
+
+const DEPTHS: &[usize] = &[4, 8, 12, 16, 20, 24, 28, 32, 40, 48, 64, 96, 128, 192, 256];
+
+fn measure_nest(case: &ScaleCase, open: &str, close: &str, ctx: &mut CaseCtx) -> Result<(), String> {
+    let fe = Frontend::of(&case.lang);
+    let mut times: Vec<(usize, f64)> = vec![];
+    for &d in DEPTHS {
+        let text = format!("{}{}{}", open.repeat(d), case.unit, close.repeat(d));
+        let dc = DocCase { fe: fe.clone(), text, config: ConfigSpec::all_on(), dialect: 0 };
+        if let Some(kf) = docsweep::excluded_by_known(&dc) {
+            ctx.class(format!("excluded:{kf}"));
+            break;
+        }
+        let t0 = thread_cpu_s();
+        let r = docsweep::evaluate(&dc);
+        let dt = thread_cpu_s() - t0;
+        if let Err(p) = r {
+            return Err(format!("panic on {open:?}^{d} {:?} {close:?}^{d} ({}): {} — {}", case.unit, case.lang, p.site(), crate::core::truncate(&p.message, 160)));
+        }
+        times.push((d, dt));
+        // the text grows by at most a factor 2 from one depth to the next; a polynomial of degree
+        // 3.5 grows by at most x11.3. Timer noise is irrelevant above a second.
+        if let [.., (pd, a), (_, b)] = times[..] {
+            if a >= 0.05 && b >= 1.0 && b / a > 11.3 {
+                return Err(format!(
+                    "work multiplies with the nesting depth: {open:?}^d {:?} {close:?}^d ({}) took {a:.2} s CPU at depth {pd} and {b:.2} s at depth {d}; all measurements {:?}",
+                    case.unit, case.lang, times
+                ));
+            }
+        }
+        if dt > 120.0 {
+            return Err(format!("{open:?}^{d} {:?} {close:?}^{d} ({}) took {dt:.1} s CPU (> 120 s bound)", case.unit, case.lang));
+        }
+    }
+    ctx.class("nesting_family");
+    ctx.nontrivial(&(&case.lang, open, &case.unit));
+    ctx.sample_note = Some(serde_json::json!(times));
+    Ok(())
 }
 
 fn thread_cpu_s() -> f64 {
@@ -84,6 +149,9 @@ pub const UNITS: &[(&str, &str)] = &[
 
 /// Run the family; returns (sizes, cpu seconds) or an error message.
 pub fn measure(case: &ScaleCase, ctx: &mut CaseCtx) -> Result<(), String> {
+    if let Some((open, close)) = &case.nest {
+        return measure_nest(case, open, close, ctx);
+    }
     let fe = Frontend::of(&case.lang);
     let unit_chars = case.unit.chars().count().max(1);
     let mut size = 1000usize;
@@ -160,7 +228,14 @@ pub fn run_scaling(run: &mut Run) {
             lang: l.to_string(),
             unit: u.to_string(),
             max_chars,
+            nest: None,
         })
+        .chain(NESTS.iter().map(|(l, o, u, c)| ScaleCase {
+            lang: l.to_string(),
+            unit: u.to_string(),
+            max_chars,
+            nest: Some((o.to_string(), c.to_string())),
+        }))
         .collect();
     // one family per thread: CPU time is measured per thread, so parallel load does not matter
     let saved = (run.threads, run.deadline_ms);
